@@ -5,6 +5,7 @@ from . import common
 
 IMPL_CRATES = ('unic_langid_impl', 'unic_locale_impl')
 PROGRESS_RE = re.compile(r'(as std::iter::Iterator>::next$|iter::Iterator::next$)')
+INFINITE_RE = re.compile(r'(iter::Cycle<|iter::Repeat<|iter::RepeatWith<|iter::FromFn<|iter::Successors<|ops::RangeFrom<|sources::repeat|iter::RepeatN<)')
 
 
 def is_text_sig(b):
@@ -42,6 +43,14 @@ def entry_points(prog, cg):
         r = cg.reachable([n])
         if any('::likelysubtags::' in x for x in r) or reads_static(prog, r, 'layout_table'):
             likely.append(n)
+    # serde support (feature serde): Serialize / Deserialize impls and the visitors they hand to the deserializer are driven by external
+    # code with arbitrary text (`visit_str`, `visit_bytes` ...): every body of an impl of a serde trait is an entry point
+    for im in prog.facts.impls:
+        if re.search(r'(^|::)serde::(ser|de)?(::)?\w*(Serialize|Deserialize|Visitor|DeserializeSeed|Expected)$', im['trait_def']) or im['trait_def'].startswith('serde::'):
+            for it in im['items']:
+                b = prog.bodies.get(it)
+                if b is not None and it.startswith(IMPL_CRATES) and not (b['sig'] and b['sig']['unsafe']) and it not in eps and it not in likely:
+                    eps.append(it)
     return sorted(eps), sorted(likely)
 
 
@@ -110,6 +119,9 @@ def progress_blocks(prog, fn, cfg, scc):
         if root is None:
             continue
         if PROGRESS_RE.search(name):
+            aty = ((t['args'][0].get('move') or t['args'][0].get('copy') or {}).get('ty') or '') + ' ' + name + ' ' + t.get('ga', '')
+            if INFINITE_RE.search(aty):
+                continue        # an iterator that never ends (repeat / cycle / from_fn / successors / open range): `next` is no progress towards termination
             if root not in hard_assigned or root <= mir['argc']:
                 out.add(bi)
         elif name in prog.bodies and must_progress(prog, name):
@@ -313,6 +325,8 @@ def run(tier, replay=None):
     rep = common.new_report('C01', tier, 'proof')
     r0 = check_config('K0', rep, tier)
     r1 = check_config('K1', rep, tier)
+    r2 = check_config('K2', rep, tier)       # feature serde: the Deserialize visitor receives arbitrary text
+    rep.floor('serde entry points (K2)', len([x for x in r2['eps'] if '::serde::' in x or 'serde' in x.lower()]), 3)
     rep.floor('text-accepting entry points (K0)', len(r0['eps']), 40)
     rep.floor('likely-subtags / direction entry points (K1)', len(r1['likely']), 3)
     rep.floor('panic-capable sites (K1)', len(r1['sites']), 6)    # 18 today (DESIGN B.1); only the six table indexings of maximize are structural - a refactor may remove the others
